@@ -433,13 +433,13 @@ func (kv *simKV) call(kind int, key string, val []byte, exp uint64) (refstore.Ou
 	}
 	w.tr.recLocked("issue", int64(kv.in.idx), op, int64(kind), inner, root, g, w.tr.keyLocked(key), v, int64(exp))
 	if p.fault != "" {
-		w.tr.recLocked("envmark", 1, int64(kv.in.idx))
+		w.tr.recLocked("envmark", 1, int64(kv.in.idx), op)
 	}
 	if 2*(p.pre+p.post) >= kv.in.spec.H {
-		w.tr.recLocked("envmark", 2, int64(kv.in.idx))
+		w.tr.recLocked("envmark", 2, int64(kv.in.idx), op)
 	}
 	if 10*(p.pre+p.post) > kv.in.spec.H {
-		w.tr.recLocked("envmark", 12, int64(kv.in.idx))
+		w.tr.recLocked("envmark", 12, int64(kv.in.idx), op)
 	}
 	w.tr.mu.Unlock()
 
@@ -594,7 +594,7 @@ func (w *World) forceExpire(key string) {
 	w.tr.mu.Lock()
 	w.mu.Lock()
 	if rev := w.store.LastRev(key); rev != 0 {
-		w.tr.recLocked("envmark", 11, 0)
+		w.tr.recLocked("envmark", 11, 0, 0)
 		w.store.Expire(key)
 		w.tr.recLocked("expire", w.tr.keyLocked(key), int64(rev))
 	}
